@@ -315,6 +315,11 @@ impl<'tx> TxInner<'tx> {
                     file.seek(SeekFrom::Start(self.db.inner.pagesize * page_id))?;
                     file.write_all(buf)?;
                 }
+                // The data pages must be durable before the meta page that points at them is
+                // written, otherwise a power loss can leave a valid meta page referencing
+                // pages that never reached the disk.
+                file.flush()?;
+                file.sync_all()?;
             }
         }
         if self.db.inner.flags.strict_mode {
